@@ -327,7 +327,7 @@ pub fn run(run: &Run) {
     let envs: Vec<Eng> = (0..2).map(|v| Eng::new(rich_env(v))).collect();
     let seed = run.opts.seed;
 
-    let n = run.opts.size(6_000, 400_000);
+    let n = run.opts.size(60_000, 4_000_000);
     run.parallel("structures", n, |i, l| {
         let mut r = Rng::derive(seed, "c07-s", i);
         let eng = &envs[r.below(envs.len())];
@@ -384,7 +384,7 @@ pub fn run(run: &Run) {
         check_structure(run, l, "chains", i, eng0, &tree, seed);
     });
 
-    let n = run.opts.size(6_000, 400_000);
+    let n = run.opts.size(60_000, 4_000_000);
     run.parallel("mutations", n, |i, l| {
         let mut r = Rng::derive(seed, "c07-m", i);
         let eng = &envs[r.below(envs.len())];
